@@ -359,6 +359,11 @@ fn cmd_run(args: &[String]) {
         if !prop.shrinkable() || std::env::var("VERIF_NOSHRINK").is_ok() {
             continue;
         }
+        // a case on which the implementation does not return is not shrunk: every evaluation would cost the watchdog's
+        // whole timeout (hundreds of evaluations: hours)
+        if f.imp.starts_with("hang") {
+            continue;
+        }
         let before = f.case.html.len();
         if f.kind == "oracle" {
             let pred = |t: &Case| {
